@@ -1,12 +1,12 @@
 SPECIFICATION Spec
 CONSTANTS
-  MaxFuncs = 0
-  MaxStmts = 2
+  MaxFuncs = 1
+  MaxStmts = 1
   FuncKinds = {"func"}
   BodyKinds = {"call"}
-  StmtKinds = {"call", "cmd", "assign", "mcall1", "mcall2", "if", "for", "switch", "defer", "var", "lamexpr", "lamblk", "funclit", "fwd"}
-  GapSet = "g3"
+  StmtKinds = {"call", "if"}
+  GapSet = "g2"
   CaseGapSet = "g1"
   FileKind = "xgo"
-  RelBases = {"same"}
+  RelBases = {"same", "unset", "sibling", "unrelated"}
 INVARIANTS TypeOK IdsOnce StmtStart Monotone DocAdjacent Balanced DeviationsNamed HelpersDeclared RelCorrect Export
